@@ -59,6 +59,18 @@ func poolURL(i int) string {
 	return poolURLs[i]
 }
 
+// closerWait: how long to wait for the asynchronous closer. Once a wait has expired in this process (a tree
+// in which removed connections are never closed) later cases wait briefly only, so that a broken tree fails
+// in minutes, not hours.
+var closerGaveUp bool
+
+func closerWait() time.Duration {
+	if closerGaveUp {
+		return 300 * time.Millisecond
+	}
+	return 15 * time.Second
+}
+
 type PoolOp struct {
 	Op     string      `json:"op"` // get | shut | table | cleanup
 	K      int         `json:"k,omitempty"`
@@ -231,13 +243,15 @@ func runPool(raw json.RawMessage) (interface{}, error) {
 	closed := map[int]bool{}
 	// generous: on a loaded machine the closer goroutine may be scheduled late; costs time only when a
 	// removed connection is never closed
-	deadline := time.Now().Add(15 * time.Second)
+	deadline := time.Now().Add(closerWait())
 	for _, cc := range await {
 		for cc.GetState() != connectivity.Shutdown && time.Now().Before(deadline) {
 			time.Sleep(200 * time.Microsecond)
 		}
 		if cc.GetState() == connectivity.Shutdown {
 			closed[idOf(cc)] = true
+		} else {
+			closerGaveUp = true
 		}
 	}
 	awaited := map[int]bool{}
